@@ -120,7 +120,7 @@ def run_faults(pid, tier, theorems, imports, targets):
     if mism:
         detail += '; %d harness/model mismatches, first: %s' % (len(mism), mism[0][1][:300])
     chk.oblige('trace-validation:fault-injection', not mism, detail)
-    window_faults(chk, tier, ['reopen', 'flush', 'compact', 'reopen-reuse'])
+    window_faults(chk, tier, ['reopen', 'flush', 'compact', 'compact-cold', 'reopen-reuse'])
     chk.assumptions += ['faults are injected at the libc boundary of calls on files of the database directory (the info log is excluded)',
                         'a failed write(2) writes nothing, or half of its bytes in partial mode']
     return chk.finish()
@@ -132,6 +132,9 @@ WINDOWS = {
     'flush': lambda db, opts: ['flushmem'],
     'compact': lambda db, opts: ['compact 0 * *', 'compact 1 * *', 'compact 2 * *'],
     'reopen-reuse': lambda db, opts: ['close', 'open %s %s' % (db, opts), 'close', 'open %s %s' % (db, opts)],
+    # the same compactions right after a reopen: the table cache is cold, so the compaction has to open (and read the footer,
+    # index and blocks of) its input tables inside the window -- an error on the INPUT side of a compaction
+    'compact-cold': lambda db, opts: ['compact 0 * *', 'compact 1 * *', 'compact 2 * *'],
 }
 
 
@@ -158,6 +161,8 @@ def window_faults(chk, tier, windows, tags=None, label='window-faults'):
                     pre.append('flushmem')
             for i in range(hr.range(1, 6)):
                 pre.append('put %s @%d~%d' % (proto.arg(hr.choice(keys)), sv + 100 + i, hr.range(50, 3000)))     # left in the log / memtable
+            if wname == 'compact-cold':
+                pre += ['close', 'open @DB@ %s' % opts.replace(' reuse=1', '')]
             body = WINDOWS[wname]('@DB@', opts) + ['put %s @%d~%d' % (proto.arg(hr.choice(keys)), sv + 200, 777), 'get %s' % proto.arg(keys[0])]
             tail = ['ensureopen @DB@ %s' % opts, 'put %s @%d~%d sync' % (proto.arg(hr.choice(keys)), sv + 300, 99)] + ['get %s' % proto.arg(k) for k in keys]
             base = _one_fault_run((wl_bin, pre, body, tail, -1, 28, 0, 0, '', h))
